@@ -34,7 +34,7 @@ TRACE_CFG = "SPECIFICATION Spec\nINVARIANTS\n  Done\n  WorldOK\nPOSTCONDITION Al
 
 BASE = {"Alloc": {"C13"}, "Slice": {"C02"}, "Append": {"C03"}, "AppendSample": {"C04"}, "SetSample": {"C12"},
         "Sample": {"C12"}, "Write": {"C01"}, "WriteStriped": {"C01"}, "Read": {"C01"}, "ReadStriped": {"C01"},
-        "Convert": {"C05"}, "ChanIndex": {"C14"}, "ChanSample": {"C14"}, "ChanSet": {"C14"}, "ChanShape": {"C14"},
+        "Convert": {"C05"}, "ConvertBig": {"C05"}, "ChanIndex": {"C14"}, "ChanSample": {"C14"}, "ChanSet": {"C14"}, "ChanShape": {"C14"},
         "Drop": {"C12"}}
 C12_OPS = {"Alloc", "Slice", "Append", "AppendSample", "SetSample", "Sample", "Write", "Drop"}
 GUARDED = {"Append", "Convert", "ReadStriped", "WriteStriped"}
@@ -121,26 +121,26 @@ def run(ctx, extra_profiles=()):
         import pool_family
         st = ctx.record("poolforeign")
         pm, ptot = pool_family.pool_mismatches(ctx, [st])
-        ctx.note("pool: %d foreign Puts recorded, %d events validated, %d mismatches" % (st["extra"].get("foreign_puts", 0), ptot["lines"], len(pm)))
+        ctx.note("pool: %d foreign Puts recorded, %d events validated, %d mismatches" % (st.get("extra", {}).get("foreign_puts", 0), ptot["lines"], len(pm)))
         for n, m in enumerate(pm[:20]):
             path = save_replay(ctx, 1000 + n, pool_family.trace_prefix_pool(m["file"], m["line"]))
             print("VIOLATION property=C15 replay=%s" % path)
             print("  pool: at line %d: op=%s class=%s expected=%s observed=%s" % (m["line"], m["op"], m["cls"], m["exp"], m["got"]))
             extra_viol += 1
-        extra_cov = dict(pool_foreign_puts=st["extra"].get("foreign_puts", 0), pool_events_validated=ptot["lines"])
+        extra_cov = dict(pool_foreign_puts=st.get("extra", {}).get("foreign_puts", 0), pool_events_validated=ptot["lines"])
         tot["lines"] += ptot["lines"]
         tot["judged"] += ptot["judged"]
     if ctx.prop == "C20":      # zero-channel / zero-capacity pool allocators: decided with Pool.tla
         import pool_family
         st = ctx.record("poolzero")
         pm, ptot = pool_family.pool_mismatches(ctx, [st])
-        ctx.note("pool: %d get/use/put cycles on zero-shaped allocators, %d events validated, %d mismatches" % (st["extra"].get("zero_pool_cycles", 0), ptot["lines"], len(pm)))
+        ctx.note("pool: %d get/use/put cycles on zero-shaped allocators, %d events validated, %d mismatches" % (st.get("extra", {}).get("zero_pool_cycles", 0), ptot["lines"], len(pm)))
         for n, m in enumerate(pm[:20]):
             path = save_replay(ctx, 1000 + n, pool_family.trace_prefix_pool(m["file"], m["line"]))
             print("VIOLATION property=C20 replay=%s" % path)
             print("  pool: at line %d: op=%s class=%s expected=%s observed=%s" % (m["line"], m["op"], m["cls"], m["exp"], m["got"]))
             extra_viol += 1
-        extra_cov = dict(zero_pool_cycles=st["extra"].get("zero_pool_cycles", 0), pool_events_validated=ptot["lines"])
+        extra_cov = dict(zero_pool_cycles=st.get("extra", {}).get("zero_pool_cycles", 0), pool_events_validated=ptot["lines"])
         tot["lines"] += ptot["lines"]
         tot["judged"] += ptot["judged"]
     if ctx.prop == "C05":      # value clause: FloatAsFloat preserves values (exact / nearest float32), never clips
